@@ -379,14 +379,28 @@ def write_evidence(prop_id, tier, seed, proof, coverage, assumptions, wall_s, vi
           "violations": violations}
     os.makedirs(os.path.join(VERIF, "evidence"), exist_ok=True)
     with open(os.path.join(VERIF, "evidence", prop_id + ".json"), "w") as f:
-        json.dump(ev, f, indent=1, ensure_ascii=False)
+        json.dump(jsonable(ev), f, indent=1, ensure_ascii=False)
         f.write("\n")
+
+
+def jsonable(o):
+    """whatever a generator put into a case's meta (tuple keys, bytes, sets) in a form json can write: a report must never
+    fail to be written"""
+    if isinstance(o, dict):
+        return {(k if isinstance(k, (str, int, float, bool)) or k is None else str(k)): jsonable(v) for k, v in o.items()}
+    if isinstance(o, (list, tuple, set, frozenset)):
+        return [jsonable(x) for x in (sorted(o, key=str) if isinstance(o, (set, frozenset)) else o)]
+    if isinstance(o, (bytes, bytearray)):
+        return bytes(o).hex()
+    if isinstance(o, (str, int, float, bool)) or o is None:
+        return o
+    return str(o)
 
 
 def write_replay(prop_id, payload):
     d = os.path.join(VERIF, "replay")
     os.makedirs(d, exist_ok=True)
-    blob = json.dumps(payload, indent=1, ensure_ascii=False, sort_keys=True)
+    blob = json.dumps(jsonable(payload), indent=1, ensure_ascii=False, sort_keys=True)
     h = hashlib.sha256(blob.encode()).hexdigest()[:12]
     p = os.path.join(d, "%s-%s.json" % (prop_id, h))
     with open(p, "w") as f:
